@@ -184,7 +184,12 @@ def streams(rng, tier):
     # bounded-exhaustive sweeps (one case per chunk)
     W5 = ["MIT", "or", "AND", "(", ")"]
     W7 = W5 + ["WITH", "389-exception"]
-    n5, n7, nc = (7, 5, 5) if q else (9, 7, 6)
+    n5, n7, nc, ne = (7, 5, 5, 7) if q else (10, 7, 7, 9)
+    # the eval() component alone against the automaton LicModel.py_eval: every skeleton the first loop can produce, up to length ne
+    import itertools
+    out.append(Case("eval-exhaustive:all-guard-passing-skeletons-len<=%d" % ne, "l.evalsweep", ["1", ""]))
+    for pfx in itertools.product("01234", repeat=2):
+        out.append(Case("eval-exhaustive:all-guard-passing-skeletons-len<=%d" % ne, "l.evalsweep", [str(ne - 2), "".join(pfx)]))
     out += sweep_cases("sweep5:all-token-seqs-len<=%d(%d)" % (n5, sum(5 ** i for i in range(n5 + 1))), " ", W5, n5, 2 if q else 3, "b")
     out += sweep_cases("sweep7:all-token-seqs-len<=%d(%d)" % (n7, sum(7 ** i for i in range(n7 + 1))), " ", W7, n7, 2, "o")
     CH = ["g", "D", "+", "(", ")", " ", "o", "R", "\n"]
@@ -198,6 +203,8 @@ def compare(case, impl, model):
         # nesting depth 101..200: CPython may or may not run out of parser stack; either way only the documented exception / this value
         if impl == "E" or impl == "OK|" + model[2:]: return None
         return "implementation differs from model (depth 101..200: expected rejection or the model's value)"
+    if case.cmd == "l.evalsweep":
+        return "eval() and the automaton differ on the guard-passing skeletons with this prefix (impl %s..., model %s...)" % (impl[:40], model[:40])
     if case.cmd == "l.sweep":
         a, b = impl.split("|", 1)[0], model.split("|", 1)[0]
         for n, (x, y) in enumerate(zip(a, b)):
@@ -209,6 +216,7 @@ def compare(case, impl, model):
 def nontrivial(case, impl):
     if case.kind == "law": return True
     if case.cmd == "l.sweep": return "1" in impl.split("|", 1)[0]
+    if case.cmd == "l.evalsweep": return "1" in impl
     return isinstance(impl, str) and impl.startswith("OK|")
 
 
